@@ -105,7 +105,7 @@ func C17(c *Ctx) {
 		r := work.Run(work.Cmd{Dir: sc.Dir, Env: work.Env(), Argv: argv, Timeout: 15 * time.Minute})
 		mu.Lock()
 		defer mu.Unlock()
-		c.Rep.Eval(1)
+		c.Rep.Count("configurations_run", 1)
 		cfgKey := strings.TrimPrefix(id, "stack:")
 		outS := string(r.Out)
 		i := strings.LastIndex(outS, "RESULT:")
@@ -137,6 +137,7 @@ func C17(c *Ctx) {
 				}
 			}
 			c.Rep.Count("depth_samples", len(res.Chain))
+			c.Rep.Eval(len(res.Chain))
 			for d := range res.Chain {
 				c.Rep.Distinct("chain/" + d)
 			}
@@ -187,6 +188,7 @@ func C17(c *Ctx) {
 			c.Rep.Distinct(fmt.Sprintf("%s/%d", cfgKey, ix))
 		}
 		c.Rep.Count("depth_samples", len(idxs))
+		c.Rep.Eval(len(idxs))
 		samples[cfgKey] = strings.Join(line, " ")
 		if len(idxs) < 4 {
 			c.Rep.Inconclusive(id + ": too few depth samples")
